@@ -594,3 +594,66 @@ def c15_4(ctx: Ctx) -> RuleResult:
             res.instances.append(i)
     res.floor = 4
     return res
+
+
+def nested_runners(ctx: Ctx) -> list[Func]:
+    """The callables handed to EnsembleOptimizer as `nested_optimizer=` (the step's nested-plan runner)."""
+    out = []
+    for f in ctx.repo.all_funcs():
+        if not f.module.name.startswith("ropt.plugins.plan"):
+            continue
+        for c in calls_in(f):
+            for kw in c.keywords:
+                if kw.arg == "nested_optimizer":
+                    for x in ast.walk(kw.value):
+                        if isinstance(x, ast.Attribute) and f.cls is not None and x.attr in f.cls.methods:
+                            g = f.cls.methods[x.attr]
+                            if g not in out:
+                                out.append(g)
+    if not out:
+        raise AnalysisError("no nested_optimizer= argument found (nested plan runner anchor vanished)")
+    return out
+
+
+@rule(P)
+def c15_5(ctx: Ctx) -> RuleResult:
+    """A nested plan that ends without a result (aborted or failed in its first evaluation: the inner tracker is still
+    empty) is an outcome with a documented exit code - the optimizer callback turns `(None, aborted)` into USER_ABORT /
+    NESTED_OPTIMIZER_FAILED.  The runner may therefore raise its own (non-abort) exception only where the nested result
+    is known not to be None."""
+    from .common import conds_at
+
+    res = RuleResult("C15.5", "EXC", "the nested-plan runner reports a missing result as (None, aborted); it raises only for a result of the wrong type")
+    X = ctx.X
+    for g in nested_runners(ctx):
+        cfg = cfg_of(ctx.repo, g)
+        n = 0
+        for r in nodes_in(g, ast.Raise):
+            if r.exc is None or cfg._exc_qual(r.exc) == ABORT:
+                continue
+            n += 1
+            cs = conds_at(ctx, g, r)
+            # the nested result: first component of what the runner returns
+            results_t = set()
+            for rr in nodes_in(g, ast.Return):
+                first = None
+                if isinstance(rr.value, ast.Tuple) and rr.value.elts:
+                    first = rr.value.elts[0]
+                elif isinstance(rr.value, ast.Call) and (rr.value.args or rr.value.keywords):
+                    # a small record type (`_NestedResult(results=..., aborted=...)`): its first field
+                    first = rr.value.args[0] if rr.value.args else rr.value.keywords[0].value
+                if first is not None:
+                    t0 = X.at(g, first)
+                    if t0 != ("const", None):
+                        results_t.add(t0)
+            # `result is None` known False, or isinstance(result, ...) known True, where the raise stands
+            nonnull = any((a[0] == "cmp" and a[1] == "is" and a[3] == ("const", None) and a[2] in results_t and p is False) for a, p in cs.items()) or \
+                any(a[0] == "call" and a[1] == ("builtin", "isinstance") and a[2] and a[2][0] in results_t and p is True for a, p in cs.items())
+            res.add(g, r, "a non-abort exception of the runner is raised only where the nested result is present", nonnull,
+                    "" if nonnull else f"`{norm_stmt(r)[:60]}` is also reached when the nested plan produced no result at all (aborted or failed in its first evaluation): "
+                    "the exception escapes the outer step - no USER_ABORT / NESTED_OPTIMIZER_FAILED exit code, no FINISHED_OPTIMIZER_STEP event",
+                    construct=f"{g.name}: raise {cfg._exc_qual(r.exc) or ''}")
+        if n == 0:
+            res.add(g, g.node, "the runner raises no exception of its own", True, construct=f"{g.name}: no own raise")
+    res.floor = 1
+    return res
